@@ -39,8 +39,14 @@ def f_member(owner, x, collection):
     return any(x is c for c in collection)
 
 
+@_predicate
+def f_pair(u, d, slack=0):
+    """a function predicate over two whole objects, with a defaulted third parameter"""
+    return u.n + slack >= d.n
+
+
 SIMPLE = ("pk", "en", "dn", "e_in_tuple", "pred_le", "d_in_conc_p", "d_in_conc_esubs", "e_obj_in", "e_eq_d", "pred_default")
-WITH_D = {"forall_flat_free_parent", "pred_conc_arg", "dn", "pred_le", "d_is_the_e", "d_in_conc_p", "d_in_conc_esubs", "d_in_conc_psubs", "forall_subs_vs_d", "e_eq_d",
+WITH_D = {"forall_var_pred", "forall_flat_free_parent", "pred_conc_arg", "dn", "pred_le", "d_is_the_e", "d_in_conc_p", "d_in_conc_esubs", "d_in_conc_psubs", "forall_subs_vs_d", "e_eq_d",
           "dn_le_an_flat"}
 
 
@@ -64,7 +70,7 @@ def gen_atom(rng, simple_only=False):
     t = lambda: rng.randint(1, 6)
     kinds = list(SIMPLE) if simple_only else list(SIMPLE) + ["d_is_the_e", "e_le_sub_an", "exists_an", "d_in_conc_psubs", "forall_subs",
                                                              "forall_items_an", "forall_subs_vs_d", "or", "not", "dn_le_an_flat",
-                                                             "p_has_elem", "pred_default", "forall_over_query_with_forall", "forall_flat_free_parent", "pred_conc_arg", "pred_conc_arg", "p_has_elem_gt_k", "forall_subs_pred"]
+                                                             "p_has_elem", "pred_default", "forall_over_query_with_forall", "forall_flat_free_parent", "pred_conc_arg", "pred_conc_arg", "p_has_elem_gt_k", "forall_subs_pred", "forall_var_pred"]
     k = rng.choice(kinds)
     if k == "pk":
         return ["pk", op(), rng.randint(0, 4)]
@@ -78,6 +84,8 @@ def gen_atom(rng, simple_only=False):
         return ["e_obj_in", sorted(rng.sample(range(6), rng.randint(1, 4)))]
     if k in ("pred_default", "forall_subs_pred"):
         return [k, rng.choice([None, None, 1, 3, 5])]
+    if k == "forall_var_pred":
+        return [k, sorted(rng.sample(range(6), rng.randint(1, 3))), rng.choice([None, None, 1, 2, 4])]
     if k == "p_has_elem":
         return ["p_has_elem", t()]
     if k == "forall_over_query_with_forall":
@@ -103,6 +111,11 @@ def gen_atom(rng, simple_only=False):
 
 def gen_case(rng):
     atoms = [gen_atom(rng) for _ in range(rng.randint(1, 3))]
+    fv = [a for a in atoms if a[0] == "forall_var_pred"]
+    if len(fv) == 1 and rng.random() < 0.7:
+        # the same function predicate over the same objects with another set of arguments, in the same query
+        other = ["forall_var_pred", sorted(set(fv[0][1]) | set(rng.sample(range(6), 1))), rng.choice([s_ for s_ in (None, 1, 2, 4) if s_ != fv[0][2]])]
+        atoms.insert(rng.randint(0, len(atoms)), other)
     if any(a[0] == "forall_subs_pred" for a in atoms) and not any(a[0] == "pred_default" for a in atoms) and rng.random() < 0.7:
         # the same function predicate also called on the element itself, with another set of arguments
         fa = next(a for a in atoms if a[0] == "forall_subs_pred")
@@ -178,6 +191,10 @@ def holds(a, p, x, d, es):
         return any(d is y for y in x.subs)
     if k == "d_in_conc_psubs":
         return any(d is y for it in p.items for y in it.subs)
+    if k == "forall_var_pred":
+        # for_all(u2, f_pair(u2, d[, slack])) with u2 a plain variable over the named elements: all arguments of the function
+        # predicate are whole objects
+        return all(es[j].n + (0 if a[2] is None else a[2]) >= d.n for j in a[1])
     if k == "forall_subs_pred":
         # for_all(u, f_nd(u[, k])): the condition is a function predicate with a defaulted parameter; other atoms of the same
         # query (and earlier queries of the process) call it on the same objects with another set of arguments
@@ -292,6 +309,9 @@ def build(case, es, ps, quant="an"):
                 return in_(d, concatenate(e.subs))
             if k == "d_in_conc_psubs":
                 return in_(d, concatenate(flatten(p.items).subs))
+            if k == "forall_var_pred":
+                u2 = let(E, [es[j] for j in a[1]])
+                return for_all(u2, f_pair(u2, d) if a[2] is None else f_pair(u2, d, a[2]))
             if k == "forall_subs_pred":
                 u = flatten(e.subs)
                 return for_all(u, f_nd(u) if a[1] is None else f_nd(u, a[1]))
@@ -396,7 +416,7 @@ def check(c, ctx):
 
 
 FEATURE_TAGS = {
-    "C10": {"forall_subs", "forall_items_an", "forall_subs_vs_d", "forall_over_query_with_forall", "forall_flat_free_parent", "forall_subs_pred"},
+    "C10": {"forall_subs", "forall_items_an", "forall_subs_vs_d", "forall_over_query_with_forall", "forall_flat_free_parent", "forall_subs_pred", "forall_var_pred"},
     "C15": {"d_is_the_e", "e_le_sub_an", "exists_an", "dn_le_an_flat", "p_has_elem", "p_has_elem_gt_k", "forall_items_an", "en_in_subquery", "en_vs_pk_in_subquery"},
     "C16": None,        # every IX query unnests a collection
     "C17": {"d_in_conc_p", "d_in_conc_esubs", "d_in_conc_psubs", "pred_conc_arg"},
